@@ -452,6 +452,29 @@ func c14Whole(method string, ruri sip.URI, from, to sip.NameAddr, vias []string,
 			}
 		}
 	}
+	if popVia || popRoute || stamped {
+		// what was done to that message must not show in the next one that carries the same text
+		m2, err := vfParseUDP(in.Bytes())
+		if err != nil {
+			return "", "second decode of the same message failed: " + err.Error()
+		}
+		m2.GetRoute()
+		m2.ForEachViaParam(func(*ViaParam) {})
+		b2, err := m2.Bytes()
+		if err != nil {
+			return "", "second encode error: " + err.Error()
+		}
+		out2, err := sip.Read(b2)
+		if err != nil {
+			return string(b2), "harness cannot read the second re-encoding"
+		}
+		for _, name := range []string{"via", "route"} {
+			a, g := in.List(name), out2.List(name)
+			if strings.Join(a, "\x00") != strings.Join(g, "\x00") {
+				return strings.Join(g, " | "), name + " list of a second message with the same text differs from what it carried (state kept from the first message)"
+			}
+		}
+	}
 	return "", ""
 }
 
